@@ -10,6 +10,7 @@ and the oracle contract h1-h3 is validated numerically on every fit (residuals r
 The Python oracle (exact brute-force lower hull, supporting-hyperplane form) is used only to
 search for a failing input when something disagrees.
 """
+import re
 from fractions import Fraction
 
 import numpy as np
@@ -94,6 +95,8 @@ def gen_group(rng, quick):
         q["hd"] = [rng.randint(-9, 9) for _ in range(h)]
     base = dict(variant="base", d=d, n=n, h=h, low=low, nfeat=nfeat, P=P, hd=hd, tol=tol,
                 ykind=ykind, queries=queries, rejected=rej)
+    if n > 40:
+        base["dsub"] = rng.sample(range(n), 24)
     fits = [base]
     # added points strictly above the hull, at integer positions inside the footprint
     extra, tries = [], 0
@@ -222,41 +225,44 @@ def qpoints(case, qrows):
     return [[yy] + [r[c] for c in case["low"]] for r, yy in qrows]
 
 
-def case_coq(case, rec):
-    """five verdicts for one fit: (M), (S), (C), (D), (D with the mask as found; informational)."""
+def case_coq(case, rec, with_found):
+    """verdicts for one fit: (M), (S), (C), then (D) one per point after a shape check, then
+    optionally (D') with the mask as found (informational)."""
     X, y, qrows = case_arrays(case)
     d, n = case["d"], case["n"]
-    low = C.natlist(case["low"])
-    sel = C.natlist(rec["sel"])
-    fs = H.facets_lit(rec)
-    out = ["sel_model_ok FS SEL"]
     spec = n <= SPEC_NMAX[d]
-    out.append("sel_spec_ok %s %s %s SEL" % (low, C.zmat(X), C.zlist(y)) if spec else "true")
+    out = ["sel_model_ok FS SEL"]
+    out.append("sel_spec_ok LOW XZ YZ SEL" if spec else "true")
     if d == 1:
         perm = sorted(range(n), key=lambda i: case["P"][i][1])
-        out.append("chain_case_ok %s %s %s %s SEL" % (low, C.zmat(X), C.zlist(y), C.natlist(perm)))
+        out.append("chain_case_ok LOW XZ YZ %s SEL" % C.natlist(perm))
     else:
         out.append("true")
-    rows = [[float(v) for v in r] for r in X] + [r for r, _ in qrows]
-    ys = [float(v) for v in y] + [yy for _, yy in qrows]
-    obs = list(rec["dist"]) + list(rec["qdist"])
+    # (D): all training samples (a fixed-size subsample when n > 40) and all queries
+    sub = list(range(n)) if n <= 40 else sorted(case["dsub"])
+    obs = [rec["dist"][i] for i in sub] + list(rec["qdist"])
+    if n <= 40:
+        xs, ys = "(zqm XZ ++ %s)" % H.qmat([r for r, _ in qrows]), "(zq YZ ++ %s)" % H.qlist([yy for _, yy in qrows])
+    else:
+        xs = H.qmat([[float(v) for v in X[i]] for i in sub] + [r for r, _ in qrows])
+        ys = H.qlist([float(y[i]) for i in sub] + [yy for _, yy in qrows])
     # absolute tolerance 1e-10 x the largest magnitude entering a facet distance (binary64 noise
     # is ~1e-16 x that); the below/above logic with the repaired mask is continuous at -tol, so
     # a decision flipped by rounding changes the value by at most the noise
     atol = 1e-10 * H.dist_mag(case["P"], rec, qpoints(case, qrows))
-    args = "%s %s %s FS %s %s %s %s" % (
-        H.q_of_float(RTOL), H.q_of_float(atol), H.q_of_float(rec["tol"]), low,
-        H.qmat(rows), H.qlist(ys), H.qlist(obs))
-    out.append("dist_ok " + args)
-    out.append("dist_found_ok " + args)
-    txt = "(let FS := %s in let SEL := %s in\n  [%s])" % (fs, sel, ";\n   ".join(out))
-    return txt, dict(spec=spec, chain=(d == 1), atol=atol)
+    args = "%s %s %s FS LOW %s %s %s" % (H.q_of_float(RTOL), H.q_of_float(atol), H.q_of_float(rec["tol"]),
+                                         xs, ys, H.qlist(obs))
+    txt = ("(let FS := %s in\n let SEL := %s in let LOW := %s in\n let XZ := %s in let YZ := %s in\n"
+           "  [%s] ++ dist_oks %s%s)" % (
+               H.facets_lit(rec), C.natlist(rec["sel"]), C.natlist(case["low"]), C.zmat(X), C.zlist(y),
+               ";\n   ".join(out), args, ("\n ++ dist_found_oks " + args) if with_found else ""))
+    npts = len(obs)
+    return txt, dict(spec=spec, chain=(d == 1), atol=atol, npts=npts,
+                     nverdicts=3 + (1 + npts) * (2 if with_found else 1), sub=sub)
 
 
-NV = 5   # verdicts per fit
 CHECK_NAMES = ["(M) model selection on observed facets", "(S) specification lower_vertices",
-               "(C) monotone chain (1 hull dimension)", "(D) score_samples on observed facets",
-               "(D') score_samples with the mask as found"]
+               "(C) monotone chain (1 hull dimension)"]
 
 
 def run(ctx):
@@ -264,8 +270,8 @@ def run(ctx):
     ngroups = 100 if ctx.quick else 1300
     groups, fits, recs, gid = [], [], [], []
     stats = dict(hull_dims={}, variants={}, ykinds={}, n_hist={}, extra_cols={}, tol={},
-                 rejected_degenerate_draws=0, errors=0, queries={}, spec_checked=0, chain_checked=0,
-                 max_chain_n=0, train_below_tol_within_noise=0, max_noise_over_tol=0.0,
+                 rejected_degenerate_draws=0, errors=0, queries={}, spec_checked=0, chain_checked=0, distance_points=0,
+                 max_chain_n=0, train_below_tol_within_noise=0, interp_node_residual=0.0,
                  contract=dict(h1=0.0, h2=0.0, h3=0.0, min_abs_ny=1.0), sfm_model_mismatch=0)
     for g in range(ngroups):
         fs_ = gen_group(ctx.rng, ctx.quick)
@@ -285,6 +291,8 @@ def run(ctx):
             stats["errors"] += "error" in r
             if "error" not in r:
                 stats["train_below_tol_within_noise"] += sum(1 for v in r["dist"] if v < -r["tol"])
+                stats["sfm_model_mismatch"] += not r["sfm_model_ok"]
+                stats["interp_node_residual"] = max(stats["interp_node_residual"], r["interp_node_residual"])
             if c["variant"] == "base":
                 stats["rejected_degenerate_draws"] += c["rejected"]
                 for q in c["queries"]:
@@ -307,9 +315,10 @@ def run(ctx):
     shards, shard_groups, cur, cur_sz = [], [], [], 0
     texts, infos = {}, {}
     for i in idx:
-        texts[i], infos[i] = case_coq(fits[i], recs[i])
+        texts[i], infos[i] = case_coq(fits[i], recs[i], with_found=(i < 45))
         stats["spec_checked"] += infos[i]["spec"]
         stats["chain_checked"] += infos[i]["chain"]
+        stats["distance_points"] += infos[i]["npts"]
         if infos[i]["chain"]:
             stats["max_chain_n"] = max(stats["max_chain_n"], fits[i]["n"])
         if cur and cur_sz + len(texts[i]) > 250000:
@@ -323,33 +332,49 @@ def run(ctx):
         body = " ++\n ".join(texts[i] for i in g)
         shards.append(C.SHARD_HEAD + "From Coq Require Import QArith.\nFrom Verif Require Import ListX DCH.\n"
                       "Definition verdicts : list bool :=\n %s.\n"
-                      "Eval vm_compute in (failing verdicts).\n" % body)
+                      "Eval vm_compute in (length verdicts, failing verdicts).\n" % body)
     t_c0 = ctx.elapsed()
     outs = C.run_shards(ctx.prop, shards, timeout=1500)
     stats["t_coq_s"] = round(ctx.elapsed() - t_c0, 1)
     stats["n_shards"] = len(shards)
-    failed, corr_broken = {}, []
+    failed, found_failed, corr_broken = {}, {}, []
     for g, (rc, out) in zip(shard_groups, outs):
-        lists = C.parse_nat_lists(out)
-        if rc != 0 or len(lists) != 1:
+        m = re.search(r"=\s*\((\d+)%nat,\s*\[(.*?)\]%?(?:nat)?\)", out.replace("\n", " "))
+        want = sum(infos[i]["nverdicts"] for i in g)
+        if rc != 0 or not m or int(m.group(1)) != want:
             corr_broken.append(out[-1500:])
             continue
-        for k in lists[0]:
-            failed.setdefault(g[k // NV], []).append(k % NV)
-    found_mask_mismatch = sum(1 for v in failed.values() if 4 in v)
-    fixed_mask_mismatch = sum(1 for v in failed.values() if 3 in v)
+        bad = [int(x) for x in re.findall(r"\d+", m.group(2))]
+        off = 0
+        for i in g:
+            nv, npts = infos[i]["nverdicts"], infos[i]["npts"]
+            for k in bad:
+                if off <= k < off + nv:
+                    j = k - off
+                    if j < 3:
+                        failed.setdefault(i, []).append(CHECK_NAMES[j])
+                    elif j < 4 + npts:
+                        failed.setdefault(i, []).append("(D) shape" if j == 3 else "(D) point %d" % (j - 4))
+                    else:
+                        found_failed.setdefault(i, []).append(j - 4 - npts)
+            off += nv
+    stats["fits_with_mask_as_found_evaluated"] = sum(1 for i in idx if i < 45)
+    stats["mask_as_found_disagrees_on_fits"] = len(found_failed)
+    stats["mask_repaired_disagrees_on_fits"] = sum(1 for v in failed.values() if any(w.startswith("(D)") for w in v))
+    stats["distance_points_disagreeing"] = sum(sum(1 for w in v if w.startswith("(D) point")) for v in failed.values())
     # verdicts: search with the oracle wherever something disagrees (and on errors)
-    suspects = {i for i, v in failed.items() if any(k != 4 for k in v)}
-    suspects |= {i for i, r in enumerate(recs) if "error" in r} | set(contract_bad)
-    n_search = 0
+    suspects = set(failed) | {i for i, r in enumerate(recs) if "error" in r} | set(contract_bad)
+    n_search, per_key = 0, {}
     for i in sorted(suspects):
         msg, key = oracle_fit(fits[i], recs[i])
         n_search += 1
-        which = [CHECK_NAMES[k] for k in failed.get(i, []) if k != 4]
+        which = failed.get(i, [])
         rep = dict(case=fits[i], observed={k: v for k, v in recs[i].items() if k not in ("eq", "simplices")},
                    correspondence=which)
         if msg:
-            C.report_violation(ctx, "C19 fails on the implementation: " + msg, rep, key=key, found_input=True)
+            per_key[key] = per_key.get(key, 0) + 1
+            if key is None or per_key[key] <= 2:          # at most two replays per known defect
+                C.report_violation(ctx, "C19 fails on the implementation: " + msg, rep, key=key, found_input=True)
         elif i in contract_bad:
             rep["contract"] = recs[i].get("contract")
             C.report_violation(ctx, "qhull oracle contract h1-h3 violated beyond %g" % EPS_CONTRACT, rep,
@@ -358,6 +383,7 @@ def run(ctx):
             rep["note"] = "model and implementation disagree but the brute-force oracle accepts the output"
             C.report_violation(ctx, "correspondence DCH model vs implementation broken: " + "; ".join(which),
                                rep, found_input=False)
+    stats["oracle_failures_by_key"] = {str(k): v for k, v in per_key.items()}
     for (s0, k) in groups:
         msg, key = oracle_group(fits[s0:s0 + k], recs[s0:s0 + k])
         if msg:
@@ -379,10 +405,8 @@ def run(ctx):
         if hsh not in seen and len(r["sel"]) < c["n"] and r["contract"]["n_lower"] >= 2:
             nontrivial += 1
         seen.add(hsh)
-    stats["mask_as_found_disagrees_on_fits"] = found_mask_mismatch
-    stats["mask_repaired_disagrees_on_fits"] = fixed_mask_mismatch
     cur_h, changed = C.drift_report(ctx.prop, ANCHORS)
-    ok_fits = len(idx) - len({i for i in failed if any(k != 4 for k in failed[i])})
+    ok_fits = len(idx) - len(failed)
     cov = dict(obligations=po["obligations"], discharged=po["discharged"], checker_cmd=po["checker_cmd"],
                theorems=po["theorems"], axioms=po["axioms"],
                trusted_base=C.TRUSTED_BASE_COMMON + [
